@@ -77,14 +77,48 @@ def parse_body_item(txt):
     if t.startswith('!'):
         rel, args = parse_clause(t[1:])
         return {'t': 'neg', 'rel': rel, 'args': args}
-    if t.startswith('(') or '!(' in t.split('(')[0] + '(' and re.match(r'^[A-Za-z_][A-Za-z0-9_]*!\s*\(', t):
+    if t.startswith('(') or re.match(r'^[A-Za-z_][A-Za-z0-9_]*!\s*\(', t):
         raise ValueError('sugar')
-    rel, args = parse_clause(t)
-    return {'t': 'clause', 'rel': rel, 'args': args, 'conds': []}
+    # clause, possibly followed by attached conditions WITHOUT a comma:  foo(x, y) if x > y if let Some(z) = w
+    depth = 0
+    end = None
+    for i, ch in enumerate(t):
+        if ch == '(':
+            depth += 1
+        elif ch == ')':
+            depth -= 1
+            if depth == 0:
+                end = i
+                break
+    rel, args = parse_clause(t[:end + 1])
+    rest = t[end + 1:].strip()
+    conds = []
+    while rest:
+        m = re.match(r'^(if let|if|let)\b', rest)
+        if not m:
+            raise ValueError('cannot parse attached condition %r' % rest)
+        # up to the next top-level keyword
+        depth = 0
+        j = len(rest)
+        k = m.end()
+        while k < len(rest):
+            ch = rest[k]
+            if ch in '([{':
+                depth += 1
+            elif ch in ')]}':
+                depth -= 1
+            elif depth == 0 and re.match(r'\b(if|let)\b', rest[k:]) and rest[k - 1] == ' ':
+                j = k
+                break
+            k += 1
+        conds.append(parse_body_item(rest[:j].strip()))
+        rest = rest[j:].strip()
+    return {'t': 'clause', 'rel': rel, 'args': args, 'conds': conds}
 
 
 def parse_rule(txt):
-    """`heads <-- body` or `heads` (fact). Conditions directly following a clause are attached to it (as the macro does)."""
+    """`heads <-- body` or `heads` (fact). A condition written after a clause WITHOUT a comma is attached to that clause (it moves
+    with the clause when the macro reorders a join); comma separated conditions are stand-alone body items."""
     txt = txt.strip().rstrip(';')
     if '<--' in txt:
         h, b = txt.split('<--', 1)
@@ -96,11 +130,7 @@ def parse_rule(txt):
         heads.append({'rel': rel, 'args': [a.get('v') or a.get('c') or a.get('e') for a in args], 'argspec': args})
     body = []
     for it in split_top(b) if b.strip() else []:
-        item = parse_body_item(it)
-        if item['t'] in ('if', 'iflet', 'let') and body and body[-1]['t'] == 'clause':
-            body[-1]['conds'].append(item)
-        else:
-            body.append(item)
+        body.append(parse_body_item(it))
     return {'heads': heads, 'body': body, 'text': txt}
 
 
@@ -134,7 +164,7 @@ def build_spec(p):
         except ValueError:
             sugar = True
             rules.append({'text': r, 'sugar': True})
-    return {'relations': rels, 'rules': rules, 'has_sugar': sugar or bool(p.get('macros')) or bool(p.get('raw'))}
+    return {'relations': rels, 'rules': rules, 'has_sugar': sugar or bool(p.get('macros')) or bool(p.get('raw')) or p.get('body') is not None}
 
 
 def render(p):
@@ -153,6 +183,8 @@ def render(p):
     if p.get('raw'):
         body.append(p['raw'])
     prog_body = '\n'.join(body)
+    if p.get('body') is not None:
+        prog_body = '\n'.join('   ' + l for l in p['body'] if l.strip() != 'pub struct P;')
     uses = p.get('uses', '')
     pre = p.get('pre', '')
     out = ['pub mod %s {' % name, '   #![allow(warnings)]', '   use ascent::*;', '   use ascent::aggregators::*;']
